@@ -727,6 +727,18 @@ def main():
                     odd = (si + pi) % 5 == 0
                     jobs.append(('gen', idx, spec, pl, odd, combo))
                     idx += 1
+    if ck.want('gen'):
+        # shapes beyond the exhaustive 3-node bound that C05 was given over the rounds (generator()-made headers reached through
+        # link chains, partial dependencies, generated lists shared with custom targets, precompiled headers, generators with depends:)
+        extra = pg.chain_specs() + pg.partialdep_specs() + pg.genct_specs() + pg.pch_specs() + pg.gendep_specs()
+        for xi, spec in enumerate(extra):
+            for pi, pl in enumerate(('root', 'allsub')):
+                if not pg.placement_ok(spec, pl) or (not ck.thorough and (xi + ck.seed) % 2 != pi):
+                    continue
+                combos = OPTION_COMBOS if ck.thorough else [OPTION_COMBOS[(xi * 5 + ck.seed) % len(OPTION_COMBOS)]]
+                for combo in combos:
+                    jobs.append(('gen', idx, spec, pl, False, combo))
+                    idx += 1
     if ck.want('neg'):
         src, cases = collision_cases()
         for name, rd, sd, layout in cases:
